@@ -19,6 +19,17 @@
 //        -> "val <o> <value> ..."
 //   rot <idx> g11 g12 .. g33 cx cy cz tx ty tz     copy of the site, Rotate(g, c), Translate(t)
 //        -> "site x y z rank Q0..Q8 pxx pyy pzz pxy pxz pyz"  (polarisability of the copy; zeros for a static site)
+//
+// Mode H (spec/multipole/SiteHist.tla): two LONG-LIVED site objects, each the only member of its own
+// segment (ApplyStaticField/ApplyInducedField work on segments), driven through call histories:
+//   hnew <x 1|2> <kind> x y z rank Q(9) a(3) i(3)
+//   hcall <x> setMultipole rank Q(9) | setCharge q | setPos x y z | translate x y z | reset
+//   hcall <x> rotate g(9) value cx cy cz | own | partner      own/partner: the centre argument is the REFERENCE
+//                                                              returned by getPos() of the object itself / of the other object
+//   hcall <x> sfield <V|N> obj|site <id>       ApplyStaticField<.., V|noE_V>(segment of the source, segment of x)
+//   hcall <x> ifield <V|N> obj|site <id>       ApplyInducedField<V|noE_V>
+//   hobs <probe site idx>  -> "o <x> pos(3) rank Q(9) getDipole(3) V(3) V_noE(3)" per object and
+//                             "e E(1,2) E(2,1) E(1,P) E(P,1) E(2,P) E(P,2)"  (CalcStaticEnergy_site on the objects themselves)
 #include <cstdio>
 #include <iostream>
 #include <map>
@@ -45,6 +56,19 @@ struct Entry {
 };
 
 static std::map<int, Entry> sites;
+
+// long-lived objects of the history layer
+struct HObj {
+  int kind = -1;
+  std::unique_ptr<StaticSegment> s;
+  std::unique_ptr<PolarSegment> p;
+  StaticSite& site() { return kind ? static_cast<StaticSite&>((*p)[0]) : (*s)[0]; }
+};
+static HObj hobj[3];
+static HObj& hget(int x) {
+  if (x < 1 || x > 2 || hobj[x].kind < 0) throw std::runtime_error("no such object " + std::to_string(x));
+  return hobj[x];
+}
 
 static const Entry& get(int idx) {
   auto it = sites.find(idx);
@@ -252,6 +276,141 @@ int main() {
         for (int i = 0; i < 9; ++i) std::cout << " " << cp->Q()[i];
         std::cout << " " << pol(0, 0) << " " << pol(1, 1) << " " << pol(2, 2) << " " << pol(0, 1) << " " << pol(0, 2)
                   << " " << pol(1, 2) << std::endl;
+      } else if (cmd == "hnew") {
+        int x, kind;
+        Index rank;
+        Eigen::Vector3d pos, a, ind;
+        Vector9d Q;
+        in >> x >> kind >> pos[0] >> pos[1] >> pos[2] >> rank;
+        for (int i = 0; i < 9; ++i) in >> Q[i];
+        in >> a[0] >> a[1] >> a[2] >> ind[0] >> ind[1] >> ind[2];
+        if (!in || x < 1 || x > 2) throw std::runtime_error("bad hnew line");
+        HObj& o = hobj[x];
+        o.kind = kind;
+        o.s.reset();
+        o.p.reset();
+        if (kind == 0) {
+          StaticSite st(x, "C", pos);
+          st.setMultipole(Q, rank);
+          o.s.reset(new StaticSegment("h", x));
+          o.s->push_back(st);
+        } else {
+          PolarSite ps(x, "C", pos);
+          ps.setMultipole(Q, rank);
+          ps.setpolarization(a.asDiagonal());
+          ps.setInduced_Dipole(ind);
+          o.p.reset(new PolarSegment("h", x));
+          o.p->push_back(ps);
+        }
+        std::cout << "ok" << std::endl;
+      } else if (cmd == "hcall") {
+        int x;
+        std::string op;
+        in >> x >> op;
+        HObj& o = hget(x);
+        StaticSite& st = o.site();  // through the base-class interface, virtual Rotate
+        if (op == "setMultipole") {
+          Index rank;
+          Vector9d Q;
+          in >> rank;
+          for (int i = 0; i < 9; ++i) in >> Q[i];
+          if (!in) throw std::runtime_error("bad hcall line");
+          st.setMultipole(Q, rank);
+        } else if (op == "setCharge") {
+          double q;
+          in >> q;
+          st.setCharge(q);
+        } else if (op == "setPos") {
+          Eigen::Vector3d p;
+          in >> p[0] >> p[1] >> p[2];
+          st.setPos(p);
+        } else if (op == "translate") {
+          Eigen::Vector3d p;
+          in >> p[0] >> p[1] >> p[2];
+          st.Translate(p);
+        } else if (op == "rotate") {
+          Eigen::Matrix3d g;
+          for (int i = 0; i < 3; ++i)
+            for (int j = 0; j < 3; ++j) in >> g(i, j);
+          std::string cm;
+          in >> cm;
+          if (cm == "value") {
+            Eigen::Vector3d c;
+            in >> c[0] >> c[1] >> c[2];
+            if (!in) throw std::runtime_error("bad hcall line");
+            st.Rotate(g, c);
+          } else if (cm == "own") {
+            st.Rotate(g, st.getPos());  // the reference itself, not a copy
+          } else if (cm == "partner") {
+            st.Rotate(g, hget(3 - x).site().getPos());
+          } else {
+            throw std::runtime_error("bad centre mode " + cm);
+          }
+        } else if (op == "reset") {
+          if (o.kind != 1) throw std::runtime_error("Reset needs a PolarSite");
+          (*o.p)[0].Reset();
+        } else if (op == "sfield" || op == "ifield") {
+          std::string mode, what;
+          int id;
+          in >> mode >> what >> id;
+          if (!in || o.kind != 1) throw std::runtime_error("bad field call");
+          eeInteractor ee;
+          const bool noE = (mode == "N");
+          // the source segment: the partner object's own segment, or a one-site segment of a fresh site
+          std::unique_ptr<StaticSegment> ts;
+          std::unique_ptr<PolarSegment> tp;
+          const StaticSegment* ss = nullptr;
+          const PolarSegment* sp = nullptr;
+          if (what == "obj") {
+            HObj& src = hget(id);
+            if (src.kind == 1) sp = src.p.get(); else ss = src.s.get();
+          } else {
+            const Entry& e = get(id);
+            if (e.kind == 1) { tp.reset(new PolarSegment(pseg({id}))); sp = tp.get(); }
+            else { ts.reset(new StaticSegment(sseg({id}))); ss = ts.get(); }
+          }
+          if (op == "sfield") {
+            if (sp) {
+              if (noE) ee.ApplyStaticField<PolarSegment, Estatic::noE_V>(*sp, *o.p);
+              else ee.ApplyStaticField<PolarSegment, Estatic::V>(*sp, *o.p);
+            } else {
+              if (noE) ee.ApplyStaticField<StaticSegment, Estatic::noE_V>(*ss, *o.p);
+              else ee.ApplyStaticField<StaticSegment, Estatic::V>(*ss, *o.p);
+            }
+          } else {
+            if (!sp) throw std::runtime_error("induced field needs a polar source");
+            if (noE) ee.ApplyInducedField<Estatic::noE_V>(*sp, *o.p);
+            else ee.ApplyInducedField<Estatic::V>(*sp, *o.p);
+          }
+        } else {
+          throw std::runtime_error("unknown call " + op);
+        }
+        std::cout << "ok" << std::endl;
+      } else if (cmd == "hobs") {
+        int pidx;
+        in >> pidx;
+        const StaticSite& P = get(pidx).st();
+        eeInteractor ee;
+        for (int x = 1; x <= 2; ++x) {
+          HObj& o = hget(x);
+          const StaticSite& st = o.site();
+          std::cout << "o " << x << " " << st.getPos()[0] << " " << st.getPos()[1] << " " << st.getPos()[2] << " "
+                    << st.getRank();
+          for (int i = 0; i < 9; ++i) std::cout << " " << st.Q()[i];
+          Eigen::Vector3d dip = o.kind ? (*o.p)[0].getDipole() - (*o.p)[0].Induced_Dipole() : st.getDipole();
+          Eigen::Vector3d V = Eigen::Vector3d::Zero(), Vn = Eigen::Vector3d::Zero();
+          if (o.kind) {
+            V = (*o.p)[0].V();
+            Vn = (*o.p)[0].V_noE();
+          }
+          std::cout << " " << dip[0] << " " << dip[1] << " " << dip[2] << " " << V[0] << " " << V[1] << " " << V[2] << " "
+                    << Vn[0] << " " << Vn[1] << " " << Vn[2] << std::endl;
+        }
+        const StaticSite& a = hget(1).site();
+        const StaticSite& b = hget(2).site();
+        std::cout << "e " << ee.CalcStaticEnergy_site(a, b) << " " << ee.CalcStaticEnergy_site(b, a) << " "
+                  << ee.CalcStaticEnergy_site(a, P) << " " << ee.CalcStaticEnergy_site(P, a) << " "
+                  << ee.CalcStaticEnergy_site(b, P) << " " << ee.CalcStaticEnergy_site(P, b) << std::endl;
       } else if (cmd.empty()) {
         std::cout << "ok" << std::endl;
       } else {
